@@ -157,6 +157,27 @@ def run(ctx, build):
                     dmeta.append(dict(desc, step='forced overwrite'))
                     if open(ret).read() != stamp or listing() != after:
                         violate('any', 'forced_export_wrong_or_leaves_files', str(desc), desc)
+                # ---- an explicit path WITHOUT the .csv extension, next to an existing '<path>.csv': the file that exists must not be
+                # touched without force, and what is written is written at the path that was asked for
+                if li % 3 == 1:
+                    hist['path_without_extension'] = hist.get('path_without_extension', 0) + 1
+                    for bare in ('results', 'results.txt'):
+                        sentinel = os.path.join(outdir, bare + '.csv')
+                        open(sentinel, 'w').write('do not touch')
+                        asked = os.path.join(outdir, bare)
+                        if os.path.exists(asked):
+                            os.remove(asked)
+                        try:
+                            with common.quiet():
+                                ret2 = u.to_csv(output_path=asked)
+                        except Exception as e:
+                            ret2 = None
+                        if open(sentinel).read() != 'do not touch':
+                            violate('explicit_path_without_csv_extension', 'existing_output_overwritten_or_not_refused',
+                                    'asked for %r without force; the existing %r was overwritten; %s' % (bare, bare + '.csv', desc), desc)
+                        for pth in (sentinel, asked):
+                            if os.path.exists(pth):
+                                os.remove(pth)
                 # ---- a target that cannot be written: must raise and leave nothing behind
                 if li % 4 == 0:
                     hist['unwritable_target'] += 1
